@@ -679,6 +679,10 @@ impl<'i, I: Interner> DisplayUnsat<'i, I> {
         let installable_nodes = &self.installable_set;
         let mut reported: HashSet<SolvableOrRootId> = HashSet::new();
 
+        // The candidates on the path from the top level to the node that is currently being
+        // displayed (together with their depth), to detect cycles in the graph.
+        let mut path: Vec<(usize, NodeIndex)> = Vec::new();
+
         // Note: we are only interested in requires edges here
         let indenter = Indenter::new(top_level_indent);
         let mut stack = top_level_edges
@@ -869,6 +873,19 @@ impl<'i, I: Interner> DisplayUnsat<'i, I> {
                     } else {
                         "<root>".to_string()
                     };
+
+                    // A conflict graph can contain cycles (a requires b, b requires a). Do not
+                    // descend into a candidate that is its own ancestor, that would never end.
+                    let depth = indenter.levels.len();
+                    path.retain(|&(ancestor_depth, _)| ancestor_depth < depth);
+                    if path.iter().any(|&(_, ancestor)| ancestor == candidate) {
+                        writeln!(
+                            f,
+                            "{indent}{version}, which is part of a dependency cycle reported above."
+                        )?;
+                        continue;
+                    }
+                    path.push((depth, candidate));
 
                     let excluded = graph
                         .edges_directed(candidate, Direction::Outgoing)
